@@ -87,6 +87,11 @@ class Contract:
         for gname in self.params:
             if gname not in fparams and gname not in env and gname in st.env:
                 env[gname] = st.env[gname]
+        # an argument that is np.array(list of k-vectors) (shape depends on emptiness) handed to a parameter declared as a 2-d array: the callee
+        # sees the (n, k) array, and the caller owes "the list is not empty"
+        for pname, pty in self.params.items():
+            if isinstance(pty, T.GridT) and type(env.get(pname)).__name__ == "Rows" and len(pty.dims) == 2:
+                env[pname] = M.rows_to_grid(interp, st, env[pname], node)
         pre_env = dict(env)
         ln = getattr(node, "lineno", "?")
         reg.note_call(interp.ctx, self)
